@@ -3,6 +3,7 @@
 package vault
 
 import (
+	"time"
 	"bytes"
 	"math/rand"
 	"context"
@@ -150,7 +151,18 @@ type Sink struct {
 	dbPath    string
 	OnWrite   func() // optional gate (scheduler hook), called without the lock
 	tap       func(p []byte) // optional observer, called with the lock held (position = append order)
+
+	// fsync semantics for concurrent callers: a Sync makes durable what had been written when it BEGAN.
+	SlowSync bool  // syncs take a little while (real time), so that concurrent requests overlap them
+	wseq     int64 // records written so far
+	durable  int64 // records covered by a completed Sync
 }
+
+// Seq is the number of records written so far (call with the sink lock held, i.e. from tap).
+func (s *Sink) Seq() int64 { return s.wseq }
+
+// Durable is the number of records covered by a completed Sync.
+func (s *Sink) Durable() int64 { s.mu.Lock(); defer s.mu.Unlock(); return s.durable }
 
 func fileHash(path string) [32]byte {
 	b, err := os.ReadFile(path)
@@ -173,6 +185,7 @@ func (s *Sink) Write(p []byte) (int, error) {
 		s.FailWrite = false
 		return 0, errors.New("injected audit write failure")
 	}
+	s.wseq++
 	if s.tap != nil {
 		s.tap(append([]byte(nil), p...))
 		return len(p), nil
@@ -183,16 +196,27 @@ func (s *Sink) Write(p []byte) (int, error) {
 
 func (s *Sink) Sync() error {
 	s.mu.Lock()
-	defer s.mu.Unlock()
 	if s.Muted {
+		s.mu.Unlock()
 		return nil
 	}
 	if s.FailSync {
 		s.FailSync = false
+		s.mu.Unlock()
 		return errors.New("injected audit sync failure")
 	}
+	covered, nw, slow := s.wseq, len(s.Writes), s.SlowSync
+	s.mu.Unlock()
+	if slow {
+		time.Sleep(time.Duration(200+covered%5*150) * time.Microsecond)
+	}
+	s.mu.Lock()
+	defer s.mu.Unlock()
 	s.Syncs++
-	for i := range s.Writes {
+	if covered > s.durable {
+		s.durable = covered
+	}
+	for i := 0; i < nw && i < len(s.Writes); i++ {
 		s.Writes[i].Synced = true
 	}
 	return nil
@@ -347,6 +371,7 @@ type Sys struct {
 	AfterCall func(c Call, sinkBytes []byte)
 
 	AuditBroken bool // an injected audit write failure has latched the real encoder's error
+	ObserveCopy bool // observe the persisted state on a copy of the file; the live instance sees only the history's calls
 
 	whoMu  sync.Mutex
 	byAddr map[string]callerInfo
@@ -798,9 +823,11 @@ func (s *Sys) Observe(probeLatest bool) ([]SecState, []string) {
 	var notes []string
 	su := s.caller("observer", suRules)
 	odb := s.DB
-	if s.AuditBroken {
-		// The live database can no longer answer anything (fail closed). What it would
-		// serve after a restart is observed on a copy of the file instead.
+	if s.AuditBroken || s.ObserveCopy {
+		// The live database can no longer answer anything (fail closed) -- or this run leaves the live database
+		// alone between the calls of the history (ObserveCopy: an observer that calls List/Info on the live
+		// instance after every step would refresh whatever the instance caches and hide staleness from the
+		// history's own calls). What it would serve after a restart is observed on a copy of the file instead.
 		b, err := os.ReadFile(s.Path)
 		if err != nil {
 			return nil, []string{"observer cannot read the database file: " + err.Error()}
